@@ -177,7 +177,7 @@ impl Out {
         if !sig.is_empty() {
             self.sigs.insert(sig.to_string());
         }
-        let kind = case.split('\t').next().unwrap_or("").to_string();
+        let kind = case.split(|c| c == '\t' || c == ' ').next().unwrap_or("").to_string();
         *self.hist.entry(kind).or_insert(0) += 1;
         if self.samples.len() < 8 && (self.n < 4 || self.n % 997 == 0) {
             let mut c = format!("{} => {}", case.replace('\t', " "), result);
